@@ -11,11 +11,11 @@ import (
 	"context"
 	"encoding/json"
 	"fmt"
-	"os"
 	"sort"
 	"strings"
 	"testing"
 
+	"github.com/go-logr/logr"
 	v1 "k8s.io/api/core/v1"
 	schedulingv1 "k8s.io/api/scheduling/v1"
 	"k8s.io/apimachinery/pkg/api/meta"
@@ -23,8 +23,8 @@ import (
 	"k8s.io/apimachinery/pkg/apis/meta/v1/unstructured"
 	"k8s.io/apimachinery/pkg/runtime"
 	"k8s.io/apimachinery/pkg/runtime/schema"
-	"k8s.io/apimachinery/pkg/types"
 	"k8s.io/apimachinery/pkg/runtime/serializer"
+	"k8s.io/apimachinery/pkg/types"
 	clientgoscheme "k8s.io/client-go/kubernetes/scheme"
 	clienttesting "k8s.io/client-go/testing"
 	ctrl "sigs.k8s.io/controller-runtime"
@@ -52,7 +52,10 @@ const (
 	c18CMNS      = "kai-system"
 )
 
-func TestMain(m *testing.M) { kit.Main(m) }
+func TestMain(m *testing.M) {
+	ctrl.SetLogger(logr.Discard()) // otherwise controller-runtime captures a stack trace per deferred log call
+	kit.Main(m)
+}
 
 // ---------------------------------------------------------------------------------------------
 // case
@@ -88,19 +91,31 @@ type c18Pod struct {
 	Scheduler   string            `json:"scheduler"`
 	W           int               `json:"workload"`
 	// expectations of the generator's model (documented rules only)
-	Key      string `json:"key"`                // pods with equal keys must share a PodGroup, different keys must not; "" = no group expected
-	WantName string `json:"wantName,omitempty"` // documented exact PodGroup name, "" = not asserted
-	WantSub  string `json:"wantSub,omitempty"`  // expected sub-group label; "?" = not asserted
+	Key      string `json:"key"`                     // pods with equal keys must share a PodGroup, different keys must not; "" = no group expected
+	WantName string `json:"wantName,omitempty"`      // documented exact PodGroup name, "" = not asserted
+	WantSub  string `json:"wantSub,omitempty"`       // expected sub-group label; "?" = not asserted
 	WantMin  int32  `json:"wantMinMember,omitempty"` // documented minMember of this pod's group (overrides the workload's); 0 = not asserted
 }
 
 type c18Workload struct {
-	Shape        string `json:"shape"`
-	Top          c18Ref `json:"top"`
-	WantMin      int32  `json:"wantMinMember,omitempty"` // documented minMember; 0 = not asserted
-	WantPrio     string `json:"wantPriorityClass,omitempty"`
-	WantOwnerIs  string `json:"wantOwnerIs,omitempty"` // "top" | "pod" | "" (not asserted): what the PodGroup's owner reference points to
-	SubGroupsMin int    `json:"subGroupsMin,omitempty"`
+	Shape       string `json:"shape"`
+	Top         c18Ref `json:"top"`
+	WantMin     int32  `json:"wantMinMember,omitempty"` // documented minMember; 0 = not asserted
+	WantPrio    string `json:"wantPriorityClass,omitempty"`
+	WantOwnerIs string `json:"wantOwnerIs,omitempty"` // "top" | "pod" | "" (not asserted): what the PodGroup's owner reference points to
+	// documented label semantics (docs/quickstart "queue label on the pod/workload"; design priority-preemptibility-separation:
+	// label on the top owner, then on the pod); "" / nil = not asserted
+	WantQueue    string  `json:"wantQueue,omitempty"`
+	WantPreempt  *string `json:"wantPreemptibility,omitempty"`
+	SubGroupsMin int     `json:"subGroupsMin,omitempty"`
+}
+
+// c18Existing is a PodGroup that exists before any pod is reconciled (created by an earlier pod-grouper version).
+type c18Existing struct {
+	Name   string            `json:"name"`
+	Owner  c18Ref            `json:"owner"`
+	Queue  string            `json:"queue,omitempty"`
+	Labels map[string]string `json:"labels,omitempty"`
 }
 
 type c18Foreign struct {
@@ -122,13 +137,10 @@ type c18Case struct {
 	Objects   []map[string]any `json:"objects"` // owner-chain objects, namespace ns
 	Pods      []c18Pod         `json:"pods"`
 	Workloads []c18Workload    `json:"workloads"`
+	Existing  []c18Existing    `json:"existingPodGroups,omitempty"`
 	OrderA    []int            `json:"orderA"`
 	OrderB    []int            `json:"orderB"`
 	StepsC    []c18Step        `json:"stepsC,omitempty"`
-	// Strict = every mutating call after the fixpoint is a violation. The search runs with Strict=false: Updates of a
-	// PodGroup without sub-groups or without labels that leave the store unchanged are the known defect documented in
-	// NOTES.md (finding-noop-update.json, Strict=true) and are counted instead (note "known-noop-update-writes").
-	Strict bool `json:"strict"`
 	// Hetero = sibling pods carry different scheduling labels (e.g. master and worker templates differ). This is outside
 	// the property's domain ("depend only on the owner chain and pod template"); such cases are run for the record only:
 	// their outcome is counted under notes "observation-hetero-*" and never reported as a violation.
@@ -173,7 +185,6 @@ type c18Run struct {
 	recorder *c18Recorder
 	writes   int
 	writeLog []string
-	noop     []bool // per write: the known no-op PodGroup update (see c18KnownNoop)
 	log      []string // trace
 	errPods  map[int]string
 }
@@ -231,6 +242,11 @@ func c18NewRun(c *c18Case) (*c18Run, error) {
 	for i := range c.Pods {
 		objs = append(objs, c.podObject(&c.Pods[i]))
 	}
+	for _, e := range c.Existing {
+		objs = append(objs, &v2alpha2.PodGroup{ObjectMeta: metav1.ObjectMeta{Name: e.Name, Namespace: c18NS, Labels: e.Labels,
+			OwnerReferences: []metav1.OwnerReference{{APIVersion: e.Owner.APIVersion, Kind: e.Owner.Kind, Name: e.Owner.Name, UID: types.UID(e.Owner.UID)}}},
+			Spec: v2alpha2.PodGroupSpec{MinMember: 1, Queue: e.Queue}})
+	}
 	// plain object tracker: the default field-managed tracker rebuilds a REST mapper of the whole scheme on every write
 	r.base = fake.NewClientBuilder().WithScheme(c18Scheme).
 		WithObjectTracker(clienttesting.NewObjectTracker(c18Scheme, c18Decoder)).WithObjects(objs...).
@@ -252,7 +268,6 @@ func c18NewRun(c *c18Case) (*c18Run, error) {
 	note := func(verb string, obj client.Object) {
 		r.writes++
 		r.writeLog = append(r.writeLog, fmt.Sprintf("%s %T %s", verb, obj, obj.GetName()))
-		r.noop = append(r.noop, false)
 	}
 	r.cl = interceptor.NewClient(r.base, interceptor.Funcs{
 		Get: func(ctx context.Context, cl client.WithWatch, key client.ObjectKey, obj client.Object, opts ...client.GetOption) error {
@@ -275,12 +290,7 @@ func c18NewRun(c *c18Case) (*c18Run, error) {
 		},
 		Update: func(ctx context.Context, cl client.WithWatch, obj client.Object, opts ...client.UpdateOption) error {
 			note("update", obj)
-			before, trigger := r.pgState(obj)
-			err := cl.Update(ctx, obj, opts...)
-			if after, _ := r.pgState(obj); err == nil && trigger && before != "" && before == after {
-				r.noop[len(r.noop)-1] = true
-			}
-			return err
+			return cl.Update(ctx, obj, opts...)
 		},
 		Patch: func(ctx context.Context, cl client.WithWatch, obj client.Object, patch client.Patch, opts ...client.PatchOption) error {
 			note("patch", obj)
@@ -322,20 +332,6 @@ func c18NewRun(c *c18Case) (*c18Run, error) {
 		PodGroupHandler: podgroup.NewHandler(r.cl, cfg.NodePoolLabelKey, cfg.SchedulingQueueLabelKey),
 		configs:         cfg, eventRecorder: r.recorder}
 	return r, nil
-}
-
-// pgState returns the stored content of the PodGroup an Update is aimed at and whether it has the shape that
-// triggers the known defect "no-op Update on every reconcile" (finding-noop-update.json): no sub-groups or no labels,
-// which the handler rebuilds as empty-but-non-nil and reflect.DeepEqual / mapsEqualBySourceKeys tell apart from nil.
-func (r *c18Run) pgState(obj client.Object) (string, bool) {
-	if _, ok := obj.(*v2alpha2.PodGroup); !ok {
-		return "", false
-	}
-	pg := &v2alpha2.PodGroup{}
-	if err := r.base.Get(context.Background(), types.NamespacedName{Namespace: obj.GetNamespace(), Name: obj.GetName()}, pg); err != nil {
-		return "", false
-	}
-	return c18Canon(pg), len(pg.Spec.SubGroups) == 0 || len(pg.Labels) == 0
 }
 
 func c18Canon(obj client.Object) string {
@@ -494,23 +490,15 @@ func (r *c18Run) snapshot() c18Snap {
 }
 
 // extraRound reconciles every pod once more (in index order) and reports the mutating calls it saw.
-// With tolerateKnown, writes that carry the exact signature of the known no-op update defect are counted, not reported.
-func (r *c18Run) extraRound(tolerateKnown bool) (writes []string, known int, panicMsg string) {
+func (r *c18Run) extraRound() (writes []string, panicMsg string) {
 	w0 := len(r.writeLog)
 	r.log = append(r.log, "-- extra round over all pods --")
 	for i := range r.c.Pods {
 		if _, _, pm := r.reconcile(i); pm != "" {
-			return nil, 0, pm
+			return nil, pm
 		}
 	}
-	for k := w0; k < len(r.writeLog); k++ {
-		if tolerateKnown && r.noop[k] {
-			known++
-			continue
-		}
-		writes = append(writes, r.writeLog[k])
-	}
-	return writes, known, ""
+	return append([]string(nil), r.writeLog[w0:]...), ""
 }
 
 func c18Steps(order []int) []c18Step {
@@ -531,7 +519,6 @@ type c18Facts struct {
 	errs           int
 	subGroups      bool
 	multiPodGroups bool
-	knownNoop      int // tolerated writes with the signature of the known no-op update defect
 }
 
 func c18FirstOcc(order []int) map[int]int {
@@ -566,8 +553,7 @@ func c18Judge(c *c18Case) (sig, msg string, f c18Facts, trace map[string]any) {
 			return fail("no-fixpoint", fmt.Sprintf("run %s: pods keep being re-enqueued by their own reconciles (work queue not empty after %d steps)", name, len(r.log)))
 		}
 		snaps[k] = r.snapshot()
-		writes, known, pm := r.extraRound(!c.Strict)
-		f.knownNoop += known
+		writes, pm := r.extraRound()
 		trace["run"+name] = r.log
 		if pm != "" {
 			return fail("panic", fmt.Sprintf("Reconcile panicked in run %s: %s", name, pm))
@@ -633,8 +619,7 @@ func c18Judge(c *c18Case) (sig, msg string, f c18Facts, trace map[string]any) {
 			trace["runC"] = r.log
 			return fail(s, m)
 		}
-		writes, known, pm := r.extraRound(!c.Strict)
-		f.knownNoop += known
+		writes, pm := r.extraRound()
 		trace["runC"] = r.log
 		if pm != "" {
 			return fail("panic", "Reconcile panicked in run C: "+pm)
@@ -740,6 +725,12 @@ func c18CheckGrouping(c *c18Case, s c18Snap, errs map[int]string, f *c18Facts) (
 		}
 		if w.WantPrio != "" && pg.Spec.PriorityClassName != w.WantPrio {
 			return "priority-class", fmt.Sprintf("PodGroup %s of %s has priorityClassName %q, documented value is %q", g, w.Shape, pg.Spec.PriorityClassName, w.WantPrio)
+		}
+		if w.WantQueue != "" && pg.Spec.Queue != w.WantQueue {
+			return "queue", fmt.Sprintf("PodGroup %s of %s has spec.queue %q although the workload is labelled for queue %q", g, w.Shape, pg.Spec.Queue, w.WantQueue)
+		}
+		if w.WantPreempt != nil && string(pg.Spec.Preemptibility) != *w.WantPreempt {
+			return "preemptibility", fmt.Sprintf("PodGroup %s of %s has spec.preemptibility %q, the labels say %q", g, w.Shape, pg.Spec.Preemptibility, *w.WantPreempt)
 		}
 		if len(pg.OwnerReferences) != 1 {
 			return "owner-reference", fmt.Sprintf("PodGroup %s has %d owner references", g, len(pg.OwnerReferences))
@@ -888,6 +879,7 @@ func c18Record(c *c18Case, f c18Facts) {
 	add(c.Cfg.NodePoolKey != "", "node-pool-key-on")
 	add(c.Cfg.DefaultsCM != "", "defaults-configmap")
 	add(len(c.Workloads) > 1, "two-workloads")
+	add(len(c.Existing) > 0, "pre-existing-legacy-podgroup")
 	classes = append(classes, fmt.Sprintf("pods:%d", len(c.Pods)), fmt.Sprintf("groups:%d", min(f.groups, 6)))
 	nt := f.orderDiffers || f.foreignHit
 	kit.Eval(kit.HexKey(c), nt, classes...)
@@ -897,9 +889,8 @@ func c18Record(c *c18Case, f c18Facts) {
 }
 
 func TestCheckPodGrouper(t *testing.T) {
-	kit.Run(t, kit.Budget{Quick: 24000, Thorough: 800000}, func(t *rapid.T) {
+	kit.Run(t, kit.Budget{Quick: 20000, Thorough: 500000}, func(t *rapid.T) {
 		c := c18GenCase(t)
-		c.Strict = os.Getenv("VERIF_C18_STRICT") != ""
 		sig, msg, f, trace := c18Judge(c)
 		if sig == "harness-error" {
 			kit.Inconclusive()
@@ -915,17 +906,13 @@ func TestCheckPodGrouper(t *testing.T) {
 			return
 		}
 		c18Record(c, f)
-		if f.knownNoop > 0 {
-			kit.Known(c18Prop, "writes-after-fixpoint")
-			kit.Note("cases-hitting-known-noop-update-defect", 1)
-			kit.Note("known-noop-update-writes", int64(f.knownNoop))
-		} else {
-			kit.Note("cases-with-strict-zero-writes", 1)
-		}
 		if f.errs > 0 {
 			kit.Note("cases-with-reconcile-errors", 1)
 		}
 		if sig != "" {
+			if kit.Known(c18Prop, sig) {
+				return // listed in known_findings.json: counted by the kit, the search goes on
+			}
 			path := kit.Violation(c18Prop, sig, msg, c, trace)
 			t.Fatalf("VIOLATION %s: %s (%s)", sig, msg, path)
 		}
